@@ -9,7 +9,7 @@ use crate::json::J;
 use crate::model::*;
 use crate::rng::Rng;
 
-pub const RULE: &str = "case = one operation history on ONE StripedSequence buffer: stripe (fresh) / stripe_into (reuse with a shorter, longer or empty sequence) / configure_wrap(m) with m growing, shrinking, 0, > rows, > the 32 spare rows / configure(&pssm) / clone, through generic (C in {1,2,4,16,32}), avx2, dispatch forced to each arm and unforced, and EncodedSequence::to_striped; DNA and protein. After EVERY operation the whole matrix is compared with the cell map of the definition (symbol i at row i mod R, column i div R, wildcard elsewhere; look-ahead row k = matrix row k shifted left by one column, wildcard in the last column), plus len(), wrap(), Index for every i, count_symbol(s), count_symbols(). Boundary lengths (incl. every residue mod 32 where the AVX2 32x32 transpose block is entered) are enumerated on every run. Non-trivial = history whose buffer held at least one non-empty sequence and one configure_wrap; distinct = distinct (alphabet, C, arm, op sequence incl. lengths).";
+pub const RULE: &str = "case = one operation history on ONE StripedSequence buffer: stripe (fresh) / stripe_into (reuse with a shorter, longer or empty sequence) / configure_wrap(m) with m growing, shrinking, 0, > rows, > the 32 spare rows / configure(&pssm) / clone, through generic (C in {1,2,4,16,32}), avx2, dispatch forced to each arm and unforced, and EncodedSequence::to_striped; DNA and protein. After EVERY operation the whole matrix is compared with the cell map of the definition (symbol i at row i mod R, column i div R, wildcard elsewhere; look-ahead row k = matrix row k shifted left by one column, wildcard in the last column), plus len(), wrap(), Index for every i, count_symbol(s), count_symbols(); the linear sequence itself (EncodedSequence: len, Index, iter, counts through the sequence and slice impls, equality, From<Vec> / FromIterator / Default) and the conversions StripedSequence::from(encoded), DenseMatrix::from(striped), StripedSequence::new(matrix, L) are checked against the same byte model. Boundary lengths (incl. every residue mod 32 where the AVX2 32x32 transpose block is entered) are enumerated on every run. Non-trivial = history whose buffer held at least one non-empty sequence and one configure_wrap; distinct = distinct (alphabet, C, arm, op sequence incl. lengths).";
 
 pub const REQUIRED: &[&str] = &[
     "arm.generic.c1", "arm.generic.c2", "arm.generic.c4", "arm.generic.c16", "arm.generic.c32", "arm.avx2.c32",
@@ -60,7 +60,7 @@ impl<A: Alphabet> Striper<A, U32> for Arm32 {
             Arm::Avx2 => Pipeline::<A, _>::avx2().unwrap().stripe(enc),
             arm => {
                 force(arm);
-                let r = if self.via_to_striped { enc.to_striped() } else { Pipeline::<A, _>::dispatch().stripe(enc) };
+                let r = if self.via_to_striped { if enc.len() % 2 == 0 { enc.to_striped() } else { StripedSequence::<A, U32>::from(enc.clone()) } } else { Pipeline::<A, _>::dispatch().stripe(enc) };
                 unforce();
                 r
             }
@@ -149,6 +149,91 @@ fn check_state<A: Alphabet, C: PositiveLength>(
         if one != counts[j] {
             return Err(format!("after {}: count_symbol({:?}) = {}, linear count {}", op, sym::<A>(j as u8), one, counts[j]));
         }
+    }
+    check_linear::<A, C>(s, op)
+}
+
+/// "the same answers as the linear sequence": the linear (encoded) sequence and its conversions
+/// answer like the byte model too
+fn check_linear<A: Alphabet, C: PositiveLength>(s: &[u8], op: &str) -> Result<(), String> {
+    let k = k_of::<A>();
+    let l = s.len();
+    let syms: Vec<A::Symbol> = s.iter().map(|&x| sym::<A>(x)).collect();
+    let enc = EncodedSequence::<A>::new(syms.clone());
+    let mut counts = vec![0usize; k];
+    for &x in s {
+        counts[x as usize] += 1;
+    }
+    if enc.len() != l || enc.is_empty() != (l == 0) || enc.iter().count() != l || (&enc).into_iter().count() != l {
+        return Err(format!("after {}: linear sequence reports len {} / is_empty {} / {} items for {} symbols", op, enc.len(), enc.is_empty(), enc.iter().count(), l));
+    }
+    for i in 0..l {
+        if enc[i] != syms[i] || *enc.iter().nth(i).unwrap() != syms[i] {
+            return Err(format!("after {}: linear sequence index {} gives {:?}, expected {:?}", op, i, enc[i], syms[i]));
+        }
+    }
+    let slice: &[A::Symbol] = enc.as_ref();
+    let by_enc = SymbolCount::<A>::count_symbols(&enc);
+    let by_slice = SymbolCount::<A>::count_symbols(&slice);
+    for j in 0..k {
+        let one_enc = SymbolCount::<A>::count_symbol(&enc, sym::<A>(j as u8));
+        let one_slice = SymbolCount::<A>::count_symbol(&slice, sym::<A>(j as u8));
+        if by_enc[j] != counts[j] || by_slice[j] != counts[j] || one_enc != counts[j] || one_slice != counts[j] {
+            return Err(format!(
+                "after {}: linear counts of symbol {}: count_symbols {} / {} (slice), count_symbol {} / {} (slice), expected {}",
+                op, j, by_enc[j], by_slice[j], one_enc, one_slice, counts[j]
+            ));
+        }
+    }
+    // equality depends on the symbols only; conversions keep them
+    let from_vec: EncodedSequence<A> = syms.clone().into();
+    let collected: EncodedSequence<A> = syms.iter().cloned().collect();
+    if !(enc == syms && enc == from_vec && enc == collected && enc == enc.clone()) {
+        return Err(format!("after {}: an encoded sequence differs from one built from the same symbols", op));
+    }
+    if l > 0 {
+        let mut other = syms.clone();
+        let j = l / 2;
+        other[j] = sym::<A>(((s[j] as usize + 1) % k) as u8);
+        if enc == other || enc == syms[..l - 1].to_vec() || enc == EncodedSequence::<A>::default() {
+            return Err(format!("after {}: an encoded sequence compares equal to a different one", op));
+        }
+    } else if !(enc == EncodedSequence::<A>::default()) {
+        return Err(format!("after {}: the empty sequence differs from the default one", op));
+    }
+    // From<StripedSequence> for DenseMatrix (From<EncodedSequence> for StripedSequence is one of the 32-column stripers)
+    let striped: StripedSequence<A, C> = stripe_generic(&enc);
+    if striped.len() != l || striped.wrap() != 0 {
+        return Err(format!("after {}: stripe(encoded) has len {} wrap {}", op, striped.len(), striped.wrap()));
+    }
+    for i in 0..l {
+        if striped[i] != syms[i] {
+            return Err(format!("after {}: stripe(encoded)[{}] = {:?}, expected {:?}", op, i, striped[i], syms[i]));
+        }
+    }
+    let r = (l + C::USIZE - 1) / C::USIZE;
+    let dm: lightmotif::dense::DenseMatrix<A::Symbol, C> = striped.clone().into();
+    if dm.rows() != r {
+        return Err(format!("after {}: DenseMatrix::from(striped) has {} rows, expected {}", op, dm.rows(), r));
+    }
+    for i in 0..l {
+        if dm[i % r][i / r] != syms[i] {
+            return Err(format!("after {}: DenseMatrix::from(striped) cell of symbol {} holds {:?}", op, i, dm[i % r][i / r]));
+        }
+    }
+    // StripedSequence::new over that matrix: accepted with the true length, rejected beyond capacity
+    match StripedSequence::<A, C>::new(dm.clone(), l) {
+        Ok(again) => {
+            for i in 0..l {
+                if again[i] != syms[i] {
+                    return Err(format!("after {}: StripedSequence::new(matrix, L)[{}] = {:?}", op, i, again[i]));
+                }
+            }
+        }
+        Err(_) => return Err(format!("after {}: StripedSequence::new rejected its own matrix with length {}", op, l)),
+    }
+    if StripedSequence::<A, C>::new(dm, r * C::USIZE + 1).is_ok() {
+        return Err(format!("after {}: StripedSequence::new accepted a length above rows x columns", op));
     }
     Ok(())
 }
